@@ -115,3 +115,39 @@ def missing_path_obligations(repo):
     if nclasses < 9 or nfs < 4:
         raise AnalysisError(f"file hierarchy shrank: {nclasses} value classes, {nfs} filesystem get_hash implementations", "redun/file.py")
     return out
+
+
+def walk_join_obligations(repo):
+    """os.walk idiom: inside `for d, _, files in os.walk(top)`, a path built for an entry of `files` (or of the dirnames) must be joined to the
+    walked directory `d`, not to `top` or anything else -- otherwise every entry below the first level is addressed at a path that does not
+    exist (for file hashing: it silently gets the constant "missing file" hash, so rewriting a nested member never changes the Dir hash).
+    Yields (construct, ok, message, rel, line)."""
+    out = []
+    for mod in repo.modules.values():
+        for q, fn in mod.funcs.items():
+            for loop in ast.walk(fn):
+                if not (isinstance(loop, ast.For) and isinstance(loop.iter, ast.Call) and (call_name(loop.iter) or "").endswith("os.walk") and isinstance(loop.target, ast.Tuple) and len(loop.target.elts) == 3):
+                    continue
+                if mod.enclosing_func(loop) is not fn:
+                    continue
+                dvar = src(loop.target.elts[0])
+                entry_lists = {src(loop.target.elts[1]), src(loop.target.elts[2])}
+                # variables iterating over the entry lists
+                entries = set()
+                for n in ast.walk(loop):
+                    if isinstance(n, (ast.For, ast.comprehension)) and src(n.iter) in entry_lists:
+                        entries |= {x.id for x in ast.walk(n.target) if isinstance(x, ast.Name)}
+                joins = [c for c in ast.walk(loop) if isinstance(c, ast.Call) and (call_name(c) or "").endswith("path.join") and len(c.args) >= 2 and any(isinstance(a, ast.Name) and a.id in entries for a in c.args[1:])]
+                for c in joins:
+                    ok = src(c.args[0]) == dvar
+                    out.append(
+                        (
+                            f"{mod.rel}:{q}:os.walk-join",
+                            ok,
+                            f"`{src(c)}` joins an entry of os.walk({src(loop.iter.args[0]) if loop.iter.args else ''}) to `{src(c.args[0])}` instead of the walked directory `{dvar}`: entries below the first "
+                            "level are addressed at paths that do not exist",
+                            mod.rel,
+                            c.lineno,
+                        )
+                    )
+    return out
